@@ -6,4 +6,5 @@ def load_all():
     if os.environ.get('VERIF_NO_WFT') != '1':
         from . import wft_c
     from . import top_c
+    from . import views_c
     return base.REG
